@@ -732,6 +732,17 @@ def _commit_after(ctx, fn, callee, label, inst):
     ctx.ob("S5", fn, label, ok and n >= 1, det, inst=inst)
 
 
+# (class, method) pairs that re-define an inherited method and are covered by S3 / S4 / S6 / S7 obligations of their own
+S5_CONFIRMED_OVERRIDES = {
+    ("StreamOffset", "__init__"), ("StreamOffset", "_translate_addr"),
+    ("StreamReversed", "__init__"), ("StreamReversed", "_translate_addr"), ("StreamReversed", "_read"),
+    ("SectorStream", "__init__"), ("SectorStream", "_read"),
+    ("FileStream", "__init__"), ("FileStream", "_get_address_given_sector_index"),
+    ("MdfStream", "__init__"), ("MdfStream", "_get_address_given_sector_index"),
+    ("Segment", "__init__"), ("RolandFile", "__init__"),
+}
+
+
 def rule_S5(ctx):
     read = _method(ctx, STREAM, "StreamWrapper", "read", "S5")
     _commit_after(ctx, _method(ctx, STREAM, "StreamWrapper", "seek", "S5"), "_seek", "seek moves the cursor only after the underlying seek was accepted", "seek-commit-order")
@@ -855,6 +866,14 @@ def rule_S5(ctx):
         bad = [st.name for st in c.body if isinstance(st, ast.FunctionDef) and st.name in ("read", "seek", "tell", "readall", "_seek")]
         ctx.ob("S5", c, f"{c.name} does not override read/seek/tell/readall/_seek (base-class obligations apply to it)", not bad,
                "" if not bad else f"overrides {bad}", inst=f"overrides:{c.name}")
+        # every other override of an inherited method is one whose behaviour the S3/S4/S6/S7 obligations describe
+        anc = [k for k in ctx.prog.mro(c)[1:]]
+        inherited = {st.name for k in anc for st in k.body if isinstance(st, ast.FunctionDef)}
+        extra = [st.name for st in c.body if isinstance(st, ast.FunctionDef) and st.name in inherited and (c.name, st.name) not in S5_CONFIRMED_OVERRIDES
+                 and st.name not in ("read", "seek", "tell", "readall", "_seek")]
+        ctx.ob("S5", c, f"{c.name} overrides only the methods whose obligations are stated", not extra,
+               "" if not extra else f"{c.name} also overrides {extra}: the base-class obligations (addressing, split accounting, re-sync, short-read detection) no longer describe what it reads",
+               inst=f"confirmed-overrides:{c.name}")
     # constructor initial state
     init = _method(ctx, STREAM, "StreamWrapper", "__init__", "S5")
     prs = [p for p in run_paths(ctx, init, rule="S5") if p.end in ("fall", "return")]
